@@ -131,3 +131,13 @@ Proof.
   destruct (remove_spec (st_q s) (m_id m) Hq) as (q' & Er & _). rewrite Er, Hg, Hi, Hk.
   eexists. split; [reflexivity|]. cbn. auto.
 Qed.
+
+(* the idle timeout expiring closes an idle connection and nothing else; nobody
+   is waiting then, so nothing is handed to anybody *)
+Lemma idle_tick_closes cs s :
+  st_conn s = COpen -> st_idle s = true ->
+  exists s', s_step cs s ETick = Ok s' /\ st_conn s' = CDown 10 /\ st_log s' = st_log s /\ st_q s' = st_q s.
+Proof. intros Hc Hi. cbn [s_step]. rewrite Hc, Hi. eexists. split; [reflexivity|]. cbn. auto. Qed.
+
+Lemma idle_tick_ignored_when_busy cs s : st_idle s = false -> s_step cs s ETick = Ok s.
+Proof. intros Hi. cbn [s_step]. rewrite Hi. destruct (st_conn s); reflexivity. Qed.
